@@ -33,6 +33,14 @@ class Prop:
     def nontrivial(self, batch, name, lines, out):
         return True
 
+    default_mode = None
+
+    def corpus_mode(self, filename):
+        """tool mode of a corpus file: '<mode>__name.ops' or the property's default"""
+        if "__" in filename:
+            return filename.split("__", 1)[0]
+        return self.default_mode
+
     def extra_coverage(self):
         return {}
 
@@ -75,7 +83,21 @@ def run_property(prop, tier, seed):
     corr_fail = None     # (batch, name)
     oracle_fail = None   # (batch, name, why)
     all_outs = []
-    for b in prop.batches(tier, seed):
+    def all_batches():
+        cdir = os.path.join(C.ROOT, "corpus", pid)
+        if os.path.isdir(cdir):
+            by_mode = {}
+            for f in sorted(os.listdir(cdir)):
+                if f.endswith(".ops"):
+                    mode = prop.corpus_mode(f)
+                    for n, ls in C.split_scripts(open(os.path.join(cdir, f)).read()):
+                        by_mode.setdefault(mode, []).append(("corpus/" + f + ":" + n, ls))
+            for mode, scripts in by_mode.items():
+                yield Batch(mode, scripts, "corpus")
+        for b in prop.batches(tier, seed):
+            yield b
+
+    for b in all_batches():
         tb = time.time()
         iout = C.run_sharded(C.IMPL_RUN, b.mode, b.scripts, b.timeout)
         mout = C.run_sharded(C.MODEL_RUN, b.mode, b.scripts, b.timeout) if b.compare else {}
